@@ -14,18 +14,18 @@ K_TEXT = ("Engine K: Kani 0.68 / CBMC 6.11 proof harnesses over the compiled cra
 NOTE = ("Bounded by the shape box in coverage.bounds. Trusted: the SymKind model of a contract-conforming array backend (re-validated natively "
         "against VecKind on every explored path), z3 for unsat answers (sat answers are replayed).")
 checks = {
- "C01": ("S", "compose vs reference pushout up to isomorphism; None iff boundary types differ"),
+ "C01": ("S", "compose vs reference pushout up to isomorphism; None iff boundary types differ; lax compose / >> / lax_compose (lax tier, interfaces up to 3); Vec-backend conformance of the gluing primitives incl. union-find depth 3/4"),
  "C02": ("S", "strict tensor equals juxtaposition as data; associativity and unit on the nose ; lax half (lax tier): lax tensor incl. pending pairs equals juxtaposition as data, associativity, unit"),
  "C03": ("S", "associativity, identities, interchange, naturality/self-inverse/hexagons of the symmetry, each decided up to genuine isomorphism; lax half (lax tier): the laws for lax diagrams with pending unifications, compared after to_strict"),
  "C04": ("S", "dagger laws, spider accept/reject with symbolic codomains, spider fusion vs cospan composite, identities and symmetries are spiders; lax half (lax tier): lax identity/twist/singleton/spider/half_spider data, dagger, fusion through strictification"),
- "C05": ("S", "checked constructors on raw 64-bit data accept iff documented conditions; Err variants name a failing condition; results well-formed and typed"),
+ "C05": ("S", "checked constructors on raw 64-bit data accept iff documented conditions; Err variants name a failing condition; results well-formed and typed; the small end of the lax / functor / native-functor / optic job lists (C09, C10, C12, C13, C14, C19) for the entry points the statement names"),
  "C06": ("S", "finite-function operations vs functions-as-term-vectors; coequalizer minimality via an independent closure; universal map iff constant on fibres"),
  "C07": ("SK", "Engine K: Kani proof harnesses of every VecArray primitive against scalar specifications (all contents of arrays of length 0..3, unwinding assertions on); Engine S: the same contract through the array traits at both backends, one native VecKind run per order/equality pattern of the inputs"),
  "C08": ("S", "segmented-array operations vs list-of-lists decoding and the size invariant; real iterator next/len/size_hint"),
- "C10": ("L", "conversions: round trips exact, to_strict panics iff label conflict and otherwise is the quotient; lax compose defined iff types match (unchecked iff arities), results glue the strict meanings; strictification commutes with ; (x) dagger (both sides by the real code, up to iso); in-place tensor/append/coproduct equal the pure forms as data"),
+ "C10": ("L", "conversions: round trips exact, to_strict panics iff label conflict and otherwise is the quotient; lax compose defined iff types match (unchecked iff arities), results glue the strict meanings; strictification commutes with ; (x) dagger (both sides by the real code, up to iso); in-place tensor/append/coproduct equal the pure forms as data; lax identity/twist/singleton/spider strictify to the strict constructors (defined on both sides or neither)"),
  "C11": ("L", "every builder call from an arbitrary state vs a list model: returned identifiers, resulting fields, deletion witness, rejection of out-of-range identifiers; serde JSON round trip (labels serialised as opaque tokens) and documented JSON shape; thorough tier adds a Kani harness of delete_nodes with symbolic identifiers"),
  "C13": ("L", "native path: None iff pending unifications; quotiented image isomorphic to the substitution and to the strict path; witness sizes, labels and interface push-through"),
- "C19": ("L", "forget / forget_monogamous vs substitution with the replace-iff-uniform rule up to iso; scripted Var-builder expressions evaluate to the expression written on symbolic inputs; build fails iff a handle outlives the builder"),
+ "C19": ("L", "forget / forget_monogamous vs substitution with the replace-iff-uniform rule up to iso; scripted Var-builder expressions evaluate to the expression written on symbolic inputs; build fails iff a handle outlives the builder and the state handed back is the term as built; every binary operator of the test signature is read order-sensitively"),
  "C09": ("L", "quotient: fibres = classes of the pending pairs, references mapped, labels of fibres, idempotence, Err iff label conflict and then unchanged; deprecated alias quotient_witness; thorough tier adds a Kani harness of quotient on a 3-node state with symbolic identifiers"),
  "C12": ("S", "functor application vs generator-wise substitution (six functor families) up to isomorphism; preservation laws; lax half (lax tier): dyn_functor path on seven lax functor families incl. images with pending unifications"),
  "C14": ("S", "optic image vs substitution with lens-shaped images up to isomorphism; interleaved types; adapted form, its type and monogamy; functoriality; lax entry points map_arrow/map_adapted (lax tier); reverse-derivative clause: adapted optic of every monogamous acyclic polynomial circuit with <=3 operations (wirings enumerated) evaluated by the real eval on symbolic 64-bit (x,dy) = (f(x), J^T dy) from an independent reverse accumulation"),
